@@ -31,6 +31,7 @@ Section Props.
       t_issuer t = (match iss with Some (n, _) => n | None => t_subject t end).
   Proof.
     unfold gen_tcert. intros H.
+    destruct (cc_serial c <? 0)%Z; [discriminate|].
     destruct (parse_rdn (cc_subject c)) as [subj|]; [|discriminate].
     destruct (to_time_struct _ _ _) as [val|]; [|discriminate].
     destruct (sig_oid _) as [[so rsa]|]; [|discriminate].
@@ -75,6 +76,7 @@ Section Props.
     (forall s, m_sigvalue (cc_manip c) = s -> s <> [] -> raw_of fx s = Some (t_sig t)).
   Proof.
     unfold gen_tcert. intros H.
+    destruct (cc_serial c <? 0)%Z eqn:Esn; [discriminate|].
     destruct (parse_rdn (cc_subject c)) as [subj|] eqn:Es; [|discriminate].
     destruct (to_time_struct _ _ _) as [val|] eqn:Ev; [|discriminate].
     destruct (sig_oid _) as [[so rsa]|] eqn:Eg; [|discriminate].
@@ -90,7 +92,7 @@ Section Props.
     split; [|split].
     - intros t0 H0. unfold gen_tcert in H0. cbn [strip cc_subject cc_serial cc_issuer_uid cc_subject_uid cc_validity cc_keyalg cc_sigalg cc_exts cc_manip
                          no_manip m_version m_outer_sigalg m_sigvalue m_tbs_sigalg m_tbs_pkalg m_tbs_pk manip_oid effective_sigalg] in H0.
-      unfold effective_sigalg in Eg. rewrite ?Es, ?Ev, ?Eg, ?Ui, ?Us in H0.
+      unfold effective_sigalg in Eg. rewrite ?Esn, ?Es, ?Ev, ?Eg, ?Ui, ?Us in H0.
       destruct (map_opt _ (cc_exts c)) as [exts0|] eqn:Ex0 in H0; [|discriminate].
       inversion H0; subst; clear H0. cbn.
       do 7 (split; [reflexivity|]).
